@@ -315,7 +315,7 @@ def _run_history(spec, mk, prior_kind, ck, t0, acc=None):
         if rec is not None and cur_s['s'] is rec.s and len(s.shell_n_sample) == len(s.bounds):
             # independent count of the proposals: rows returned by bounds[i].sample() to sample_shell
             for i, b in enumerate(s.bounds):
-                want = rec.drawn.get(id(b), 0)
+                want = rec.drawn.get(rec.bid(b), 0)
                 if int(s.shell_n_sample[i]) != want:
                     fails['C02'].append(('proposals-miscounted', 'shell %d: shell_n_sample=%d but its bound returned %d proposals to sample_shell' % (
                         i, int(s.shell_n_sample[i]), want), dict(ctx, shell=i)))
@@ -336,7 +336,7 @@ def _run_history(spec, mk, prior_kind, ck, t0, acc=None):
         prev = state['prev']
         if prev is not None and not prev['explored'] and s.explored:
             stats['shells_removed_at_end_of_exploration'] = prev['n_bounds'] - len(s.bounds)
-        cur = {'explored': bool(s.explored), 'bounds': [id(b) for b in s.bounds], 'n_bounds': len(s.bounds), 'sid': id(s),
+        cur = {'explored': bool(s.explored), 'bounds': [id(b) for b in s.bounds], 'n_bounds': len(s.bounds), 'sid': stats['resumes'],     # segment number (not id(s): ids of dead objects are reused)
                'arrays': [(p.copy(), l.copy(), None if s.blobs is None else s.blobs[i].copy())
                           for i, (p, l) in enumerate(zip(s.points, s.log_l))] if s.explored else None}
         if prev is not None and prev['explored']:
